@@ -32,6 +32,11 @@ Case kinds
                  the RuntimeError branches of reference_type / roi / referenced_segment(ation_frame) and
                  content.py *.from_sequence
   acc_fixture  : the same on the shipped sr_document*.dcm
+  construct    : the ARGUMENT CHECKS of the template classes (model: run_construct_planar / run_construct_volumetric):
+                 none / one / several reference arguments, objects of the wrong class, ImageRegion3D among volumetric
+                 regions, empty region list, ReferencedSegment / VolumeSurface built with images / an EMPTY image list /
+                 a series / nothing, volume surfaces of 0..3 items of every graphic type; observed: the stage that
+                 refuses (object / group) with the exception class, or - when accepted - every accessor of the group
 In every kind a code returned by an accessor is numbered by what it compares EQUAL to (both operand orders,
 Code and CodedConcept) among the variants of its code value, not only by its attributes (code_id).
 """
@@ -67,9 +72,12 @@ MODELLED = ('sr/utils.find_content_items (non-recursive); sr/templates._count_ro
             'source_images, get_measurements, get_qualitative_evaluations) and the item skeleton the group '
             'constructors produce; content.py ReferencedSegment/ReferencedSegmentationFrame/VolumeSurface.from_sequence '
             '(classification of items only); the accessors incl. their RuntimeError branches are also compared on '
-            'damaged trees and on the shipped documents (run_tree_accessors)')
+            'damaged trees and on the shipped documents (run_tree_accessors); the argument checks of '
+            'PlanarROI... / VolumetricROIMeasurementsAndQualitativeEvaluations.__init__, '
+            '_ROIMeasurementsAndQualitativeEvaluations.__init__, content.py ReferencedSegment.__init__ / '
+            'VolumeSurface.__init__ (sources, number of graphic data items per graphic type) (run_construct_*)')
 STRATA = ['report_mem', 'report_doc', 'report_file', 'report_notid', 'acc', 'refuse', 'tree', 'fixture',
-          'report_codes', 'acc_codes', 'acc_tree', 'acc_fixture', 'report_opts', 'acc_opts']
+          'report_codes', 'acc_codes', 'acc_tree', 'acc_fixture', 'report_opts', 'acc_opts', 'construct']
 RULE = ('reports of 0..5 groups (planar: 2D region of each graphic type, 3D region, segmentation frame, region in '
         'space; volumetric: 1..3 regions, segment with image/series sources, volume surface, region in space; '
         'image groups), values from small pools so that collisions between groups happen; per report 10 sampled '
@@ -80,11 +88,14 @@ RULE = ('reports of 0..5 groups (planar: 2D region of each graphic type, 3D regi
         'report_codes / acc_codes: every coded concept drawn from few code values x {un-versioned, 2 scheme '
         'versions} x {2 scheme designators} (+ SNOMED members in SCT / SRT spelling), code filters = exact code of '
         'a group / sibling variant / unused, each also alone, given as Code or CodedConcept, with the stored or '
-        'another meaning; accessor codes identified by == against all variants; acc_tree: 1..3 groups, 1..3 of 19 '
+        'another meaning; accessor codes identified by == against all variants; acc_tree: 1..3 groups, 1..3 of 17 '
         'damages (duplicated / dropped / foreign reference items, wrong template id, lost CONTAINS relationship, second '
         'tracking uid / finding / site item, extra 2D / 3D region, volume surface items of two graphic types, dropped / '
         'extra source items, second Imaging Measurements container), every accessor of every group the unfiltered '
-        'queries return observed separately, exceptions included; acc_fixture: the same on the shipped documents. '
+        'queries return observed separately, exceptions included; acc_fixture: the same on the shipped documents; '
+        'construct: 8 argument combinations per case (0..3 reference arguments of right / wrong class, region lists of '
+        '0..3 items incl. 3D regions and foreign objects, segments / surfaces built with images / EMPTY images / series / '
+        'both / nothing, surfaces of 0..3 items of each graphic type). '
         'non-trivial = at least two groups and a non-empty, non-total answer or a refusal; distinct by case hash')
 NOT_EXECUTED = []
 EXHAUSTIVE = {'quick': False, 'thorough': False}
@@ -466,6 +477,7 @@ def gen_cases(rng, tier):
     cases += _gen_code_cases(rng, tier)
     cases += _gen_acc_tree_cases(rng, tier)
     cases += _gen_opts_cases(rng, tier)
+    cases += _gen_construct_cases(rng, tier)
     return cases
 
 
@@ -547,6 +559,225 @@ def _gen_opts_cases(rng, tier):
     return cases
 
 
+ACC_MUTS_BY_REF = {
+    'r2': ['add_region', 'add_region3d', 'dup_ref', 'drop_ref', 'add_foreign_ref', 'ref_relationship'],
+    'r3': ['add_region', 'add_region3d', 'dup_ref', 'drop_ref', 'add_foreign_ref', 'add_vs_to_planar'],
+    'rs': ['add_region', 'add_region3d', 'drop_ref', 'add_foreign_ref', 'ref_relationship', 'wrong_tid'],
+    'sf': ['dup_ref', 'drop_source', 'add_image_source', 'add_image_source', 'ref_relationship', 'region_no_source_rel'],
+    'seg': ['add_series_and_image', 'add_image_source', 'drop_source', 'dup_ref', 'region_no_source_rel'],
+    'surf': ['surface_other_gt', 'surface_other_gt', 'drop_source', 'add_series_and_image', 'dup_ref',
+             'region_no_source_rel'],
+    'ris': ['dup_ref', 'drop_ref', 'add_foreign_ref', 'wrong_tid'],
+    'src': ['add_region', 'add_foreign_ref', 'wrong_tid', 'dup_code', 'dup_tracking'],
+}
+
+
+# ---- constructor argument checks ---------------------------------------------------------------------------
+def _src_arg(rng):
+    """[images or None, series or None]: images given (possibly EMPTY), series, both, neither"""
+    r = rng.random()
+    imgs = [_src(rng) for _ in range(rng.choice([1, 1, 2]))]
+    if r < 0.35:
+        return [imgs, None]
+    if r < 0.55:
+        return [None, rng.randint(1, 3)]
+    if r < 0.7:
+        return [[], None]
+    if r < 0.8:
+        return [imgs, rng.randint(1, 3)]
+    if r < 0.9:
+        return [[], rng.randint(1, 3)]
+    return [None, None]
+
+
+def _ospec(rng, t):
+    if t == 'r2':
+        return ['r2', rng.choice([1, 3, 4, 5])] + _src(rng)
+    if t == 'r3':
+        return ['r3', rng.choice([1, 3, 4, 5])]
+    if t == 'sf':
+        return ['sf'] + _src(rng, SEG_INST) + _src(rng)
+    if t == 'seg':
+        return ['seg'] + _src(rng, SEG_INST) + [_src_arg(rng)]
+    if t == 'surf':
+        gt = rng.choice([1, 4, 5, 6, 6, 1, 3])
+        return ['surf', gt, rng.choice([0, 1, 1, 2, 2, 3]), _src_arg(rng)]
+    return ['other']
+
+
+def _construct_item(rng):
+    opt = lambda ts, p: _ospec(rng, rng.choice(ts)) if rng.random() < p else None  # noqa: E731
+    if rng.random() < 0.4:
+        return {'k': 'P', 'region': opt(['r2', 'r2', 'r3', 'other', 'sf'], 0.6),
+                'segment': opt(['sf', 'sf', 'seg', 'other', 'r2'], 0.5)}
+    regions = None
+    if rng.random() < 0.45:
+        regions = [_ospec(rng, rng.choice(['r2', 'r2', 'r2', 'r2', 'r3', 'other'])) for _ in range(rng.choice([0, 1, 2, 2, 3]))]
+    return {'k': 'V', 'regions': regions, 'surface': opt(['surf', 'surf', 'surf', 'other', 'seg'], 0.45),
+            'segment': opt(['seg', 'seg', 'seg', 'sf', 'other'], 0.45)}
+
+
+def _gen_construct_cases(rng, tier):
+    n = {'quick': 16, 'thorough': 150, 'search': 80}[tier]
+    return [{'kind': 'construct', 'items': [_construct_item(rng) for _ in range(8)]} for _ in range(n)]
+
+
+def _mk_obj(sp):
+    """the real object of an object spec (may raise: refusal at the object stage)"""
+    from highdicom import sr
+    t = sp[0]
+    if t == 'r2':
+        return sr.ImageRegion(graphic_type=G2[sp[1]], graphic_data=_gdata2(sp[1]),
+                              source_image=sr.SourceImageForRegion(CLASSES[sp[2]], inst_str(sp[3])))
+    if t == 'r3':
+        return sr.ImageRegion3D(graphic_type=G3[sp[1]], graphic_data=_gdata3(sp[1]), frame_of_reference_uid=FOR_UID)
+    if t == 'sf':
+        return sr.ReferencedSegmentationFrame(
+            sop_class_uid=CLASSES[sp[1]], sop_instance_uid=inst_str(sp[2]), frame_number=1, segment_number=1,
+            source_image=sr.SourceImageForSegmentation(CLASSES[sp[3]], inst_str(sp[4])))
+    if t in ('seg', 'surf'):
+        imgs, series = sp[3]
+        kw = {}
+        if imgs is not None:
+            kw['source_images'] = [sr.SourceImageForSegmentation(CLASSES[c], inst_str(i)) for c, i in imgs]
+        if series is not None:
+            kw['source_series'] = sr.SourceSeriesForSegmentation(series_str(series))
+        if t == 'seg':
+            return sr.ReferencedSegment(sop_class_uid=CLASSES[sp[1]], sop_instance_uid=inst_str(sp[2]),
+                                        segment_number=1, **kw)
+        return sr.VolumeSurface(graphic_type=G3[sp[1]], graphic_data=[_gdata3(sp[1]) for _ in range(sp[2])],
+                                frame_of_reference_uid=FOR_UID, **kw)
+    return 'not a reference object'
+
+
+def _run_construct(it):
+    from highdicom import sr
+    from pydicom.sr.codedict import codes
+    tr = sr.TrackingIdentifier(uid=tuid_str(1), identifier='t1000')
+    mk = lambda sp: None if sp is None else _mk_obj(sp)  # noqa: E731
+    if it['k'] == 'P':
+        objs = catch(lambda: [mk(it['region']), mk(it['segment'])])
+        if isinstance(objs, Err):
+            return ['object', objs]
+        grp = catch(lambda: sr.PlanarROIMeasurementsAndQualitativeEvaluations(
+            tracking_identifier=tr, referenced_region=objs[0], referenced_segment=objs[1]))
+    else:
+        objs = catch(lambda: [None if it['regions'] is None else [_mk_obj(x) for x in it['regions']],
+                              mk(it['surface']), mk(it['segment'])])
+        if isinstance(objs, Err):
+            return ['object', objs]
+        grp = catch(lambda: sr.VolumetricROIMeasurementsAndQualitativeEvaluations(
+            tracking_identifier=tr, referenced_regions=objs[0], referenced_volume_surface=objs[1],
+            referenced_segment=objs[2]))
+    if isinstance(grp, Err):
+        return ['group', grp]
+    rep = sr.MeasurementReport(observation_context=_observation_context('person'),
+                               procedure_reported=codes.LN.CTUnspecifiedBodyRegion, imaging_measurements=[grp])
+    return ['ok', _run_acc_tree(rep, None, None, _AlphaIds)]
+
+
+def _coq_src_arg(a):
+    imgs, series = a
+    ci = 'None' if imgs is None else '(Some [' + '; '.join(f'({c}, {i})' for c, i in imgs) + '])'
+    return f"(SrcArg {ci} {oz(series)})"
+
+
+def _coq_ospec(sp):
+    t = sp[0]
+    if t == 'r2':
+        return f'(SpRegion2D {sp[1]} {sp[2]} {sp[3]})'
+    if t == 'r3':
+        return f'(SpRegion3D {sp[1]})'
+    if t == 'sf':
+        return f'(SpSegFrame {sp[1]} {sp[2]} {sp[3]} {sp[4]})'
+    if t == 'seg':
+        return f'(SpSegment {sp[1]} {sp[2]} {_coq_src_arg(sp[3])})'
+    if t == 'surf':
+        return f'(SpSurface {sp[1]} {sp[2]}%nat {_coq_src_arg(sp[3])})'
+    return 'SpOther'
+
+
+def _coq_construct(it):
+    o = lambda sp: 'None' if sp is None else f'(Some {_coq_ospec(sp)})'  # noqa: E731
+    if it['k'] == 'P':
+        return f"(run_construct_planar {o(it['region'])} {o(it['segment'])})"
+    rs = 'None' if it['regions'] is None else '(Some [' + '; '.join(_coq_ospec(x) for x in it['regions']) + '])'
+    return f"(run_construct_volumetric {rs} {o(it['surface'])} {o(it['segment'])})"
+
+
+def _src_documented(a):
+    """sources as the documentation of ReferencedSegment / VolumeSurface asks for them: images (at least one) or a series"""
+    return bool(a[0]) or (a[0] is None and a[1] is not None)
+
+
+def _construct_expect(it):
+    """(accepted?, reference record) from the documentation of the template classes"""
+    def obj_ok(sp):
+        if sp is None or sp[0] not in ('seg', 'surf'):
+            return True
+        if sp[0] == 'surf':
+            gt, n = sp[1], sp[2]
+            if not ((gt in (1, 6) and n == 1) or (gt in (4, 5) and n >= 2)):
+                return False
+        return _src_documented(sp[3])
+    so = lambda a: ['images', a[0]] if a[0] is not None else ['series', a[1]]  # noqa: E731
+    if it['k'] == 'P':
+        given = [x for x in (it['region'], it['segment']) if x is not None]
+        if not all(obj_ok(x) for x in given) or len(given) != 1:
+            return False, None
+        if it['region'] is not None and it['region'][0] in ('r2', 'r3'):
+            return True, it['region']
+        if it['segment'] is not None and it['segment'][0] == 'sf':
+            return True, it['segment']
+        return False, None
+    parts = ([] if it['regions'] is None else list(it['regions'])) + [x for x in (it['surface'], it['segment']) if x is not None]
+    n_given = (it['regions'] is not None) + (it['surface'] is not None) + (it['segment'] is not None)
+    if not all(obj_ok(x) for x in parts) or n_given != 1:
+        return False, None
+    if it['regions'] is not None:
+        if it['regions'] and all(x[0] == 'r2' for x in it['regions']):
+            return True, ['rs', [x[1:] for x in it['regions']]]
+        return False, None
+    if it['surface'] is not None and it['surface'][0] == 'surf':
+        return True, ['surf', it['surface'][1], it['surface'][2], so(it['surface'][3])]
+    if it['segment'] is not None and it['segment'][0] == 'seg':
+        return True, ['seg', it['segment'][1], it['segment'][2], so(it['segment'][3])]
+    return False, None
+
+
+def _check_construct(c, out):
+    for it, o in zip(c['items'], out):
+        want_ok, ref = _construct_expect(it)
+        if o[0] != 'ok':
+            if want_ok:
+                return f'arguments {it} are valid for the template class but were refused at the {o[0]} stage: {o[1]}'
+            continue
+        # accepted (whether or not the documentation allows it): the group must report what it was constructed with
+        rows = o[1]
+        K = it['k']
+        mine = rows['PVI'.index(K)]
+        if any(isinstance(r, Err) for r in rows) or [len(r) for r in rows] != [int(K == x) for x in 'PVI']:
+            return f'group constructed from {it} is not returned by exactly the {K} query: {rows}'
+        a = mine[0]
+        bad = [x for x in a if isinstance(x, Err)]
+        if bad:
+            return (f'group ACCEPTED by the constructor cannot report what it was constructed with: arguments {it}, '
+                    f'accessors {a}')
+        if ref is not None:
+            g = {'ref': ref}
+            if a[10] != _ref_code(g):
+                return f'constructed with {it}: reference_type = {a[10]}'
+            if K == 'P':
+                w = [['2D'] + ref[1:] if ref[0] == 'r2' else ['3D', ref[1]] if ref[0] == 'r3' else None,
+                     ref[1:] if ref[0] == 'sf' else None]
+            else:
+                w = [['regions', ref[1]] if ref[0] == 'rs' else ['surface'] + ref[1:] if ref[0] == 'surf' else None,
+                     ref[1:] if ref[0] == 'seg' else None]
+            if a[11:13] != w:
+                return f'constructed with {it}: roi / segment accessors = {a[11:13]}, expected {w}'
+    return None
+
+
 def _gen_acc_tree_cases(rng, tier):
     """accessors on damaged trees / shipped documents (drawn last: the earlier kinds keep their cases)"""
     n = {'quick': 30, 'thorough': 300, 'search': 200}[tier]
@@ -554,7 +785,12 @@ def _gen_acc_tree_cases(rng, tier):
     for j in range(n):
         ng = rng.choice([1, 2, 3])
         groups = [_group(rng, i, notid=rng.choice([0.0, 0.0, 1.0])) for i in range(ng)]
-        muts = [[rng.choice(ACC_MUTS), rng.randrange(ng), rng.randint(0, 10**6)] for _ in range(rng.choice([1, 1, 2, 3]))]
+        muts = []
+        for _ in range(rng.choice([1, 1, 2, 3])):
+            gi = rng.randrange(ng)
+            # mostly a damage that bites on the kind of reference the target group has
+            pool = ACC_MUTS_BY_REF[groups[gi]['ref'][0]] if rng.random() < 0.6 else ACC_MUTS
+            muts.append([rng.choice(pool), gi, rng.randint(0, 10**6)])
         allnames = [m[0] for g in groups for m in g['meas']]
         allev = [e[0] for g in groups for e in g['evals']]
         cases.append({'kind': 'acc_tree', 'groups': groups, 'io': rng.choice(['mem', 'mem', 'file']), 'pre': 'person',
@@ -983,6 +1219,9 @@ def _apply_mutation(rep, m):
         new = [sr.SourceSeriesForSegmentation(series_str(2)),
                sr.SourceImageForSegmentation(CLASSES[0], inst_str(3))]
         set_items(items + new[:rng.choice([1, 2])])
+    elif name == 'add_image_source':   # one more Source Image For Segmentation item
+        i = rng.choice(IMG_INST)
+        set_items(items + [sr.SourceImageForSegmentation(CLASSES[cls_of(i)], inst_str(i))])
     elif name == 'dup_code':           # a second Finding / Finding category / Method / Finding Site item
         z, rel = rng.choice([(5, 'CONTAINS'), (7, 'CONTAINS'), (8, 'CONTAINS'), (6, 'HAS CONCEPT MOD'),
                              (5, 'HAS PROPERTIES'), (17, 'CONTAINS'), (151, 'CONTAINS'), (151, 'HAS PROPERTIES')])
@@ -990,7 +1229,8 @@ def _apply_mutation(rep, m):
         pos = rng.choice([0, len(items)])
         set_items(items[:pos] + [new] + items[pos:])
     elif name == 'surface_other_gt':   # volume surface items of two graphic types
-        new = sr.Scoord3DContentItem(name=code_of(10), graphic_type='ELLIPSE', graphic_data=_gdata3(5),
+        gt = rng.choice([4, 5])
+        new = sr.Scoord3DContentItem(name=code_of(10), graphic_type=G3[gt], graphic_data=_gdata3(gt),
                                      frame_of_reference_uid=FOR_UID, relationship_type='CONTAINS')
         pos = rng.choice([0, len(items)])
         set_items(items[:pos] + [new] + items[pos:])
@@ -1262,6 +1502,8 @@ def run_impl(c):
         return _run_fixture(c)[0]
     if k == 'acc_fixture':
         return _run_fixture_acc(c)[0]
+    if k == 'construct':
+        return [_run_construct(it) for it in c['items']]
     if k in ('acc_tree', 'acc_opts'):
         rep = _build_report(c)
         return _run_acc_tree(rep, None if c['mname'] is None else code_of(c['mname']),
@@ -1430,6 +1672,8 @@ def coq_term(c):
         return _run_fixture(c)[1]
     if k == 'acc_fixture':
         return _run_fixture_acc(c)[1]
+    if k == 'construct':
+        return '(VL [' + '; '.join(_coq_construct(it) for it in c['items']) + '])'
     if k in ('tree', 'report_opts'):
         common.import_highdicom()
         c2 = dict(c, io='mem')
@@ -1752,6 +1996,8 @@ def oracle(c, out):
                 if a[8] != [m for m in a[6] if m in a[8]] or a[9] != [e for e in a[7] if e in a[9]]:
                     return f'by-name accessor is not a sub-sequence of the unnamed one: {a}'
         return None
+    if k == 'construct':
+        return _check_construct(c, out)
     if k in ('acc_tree', 'acc_opts'):
         msg = _check_acc_tree(c, out)
         if msg is None and k == 'acc_opts':       # nothing is damaged: no accessor may raise, every group is seen
@@ -1783,6 +2029,8 @@ def nontrivial(c, out):
         return True
     if k == 'acc_opts':
         return len(c['groups']) >= 2
+    if k == 'construct':
+        return len({o[0] for o in out}) >= 2
     n = len(c['groups'])
     for row in out:
         for r in row:
@@ -1792,6 +2040,11 @@ def nontrivial(c, out):
 
 
 def shrink(c):
+    if c.get('kind') == 'construct':
+        if len(c['items']) > 1:
+            for it in c['items']:
+                yield dict(c, items=[it])
+        return
     if 'groups' not in c:
         return
     if 'filters' in c and len(c['filters']) > 1:
@@ -1818,6 +2071,22 @@ def shrink(c):
     if c.get('io') != 'mem':
         yield dict(c, io='mem')
 
+
+def _sig_empty_sources(c):
+    """ReferencedSegment / VolumeSurface accept an EMPTY source image list (and VolumeSurface POINT / ELLIPSOID an
+    empty graphic data list); the group built from such an object raises RuntimeError in referenced_segment / roi /
+    reference_type.  Open finding (id to be confirmed by the lead; effective only while KNOWN_FINDINGS.json lists it
+    as open for C16)."""
+    if c.get('kind') != 'construct':
+        return False
+    for it in c['items']:
+        for sp in [it.get('surface'), it.get('segment')]:
+            if sp and sp[0] in ('seg', 'surf') and (sp[3][0] == [] or (sp[0] == 'surf' and sp[2] == 0)):
+                return True
+    return False
+
+
+FINDINGS = {'D107': _sig_empty_sources}
 
 if __name__ == '__main__':
     sys.exit(common.main(sys.modules[__name__]))
